@@ -1055,6 +1055,32 @@ def u_paths(ctx):
             if not same(p2, back):
                 ctx.violation("overwrite-keeps-stale-file", {**desc, "stale": same(p1, back)})
 
+        # 4b. the same for dotted names in a directory the first save has to create (the second save finds it)
+        for rep in range(reps):
+            for name in dotted:
+                C, spec, kw = classes[(idx + rep) % len(classes)]
+                idx += 1
+                env, p1 = mk(C, spec, kw, idx)
+                _, p2 = mk(C, spec, kw, idx + 30_000)
+                d = os.path.join(T.root, f"owd{idx}", "new", "dir")
+                path = os.path.join(d, name)
+                desc = {"class": C.__name__, "spelling": "dotted-new-dir", "name": name, "rep": rep, "what": "overwrite"}
+                ctx.case(desc, nontrivial=True, cls="paths/overwrite-dotted")
+                try:
+                    _save(p1, path, {}, jit=False)
+                    files1 = sorted(os.listdir(d))
+                    _save(p2, path, {}, jit=False)
+                    files2 = sorted(os.listdir(d))
+                    back = load(C, env, kw, path)
+                except Exception as e:
+                    ctx.violation("overwrite-raised", {**desc, "got": _err(e)})
+                    continue
+                ctx.monitor("overwrite_cases")
+                ctx.monitor("overwrite_dotted_new_dir_cases")
+                if not same(p2, back):
+                    ctx.violation("overwrite-keeps-stale-file", {**desc, "stale": same(p1, back), "files_after_first_save": files1,
+                                                                 "files_after_second_save": files2})
+
         # 5. observations only: other spelling at load time
         obs = {}
         C, spec, kw = classes[0]
@@ -1073,6 +1099,7 @@ def u_paths(ctx):
     ctx.require("dotted_name_roundtrips", 4)
     ctx.require("two_name_cases", 4)
     ctx.require("overwrite_cases", 2)
+    ctx.require("overwrite_dotted_new_dir_cases", 4)
     for sp in SPELLINGS:
         ctx.require(f"spelling/{sp}", 1)
 
